@@ -57,6 +57,15 @@ def gen_Units(repo):
                 ok = True
     if not ok:
         raise AnchorLost("units.py:compute_conversion_factor product formula")
+    # the documented parameter names and order of the two conversion functions, and convert_value's single return
+    if [a.arg for a in ccf.args.args] != ["su_src", "su_dst", "sdim"]:
+        raise AnchorLost("units.py:compute_conversion_factor parameters (su_src, su_dst, sdim)")
+    cv = units.func("convert_value")
+    if [a.arg for a in cv.args.args] != ["value", "su_src", "su_dst", "sdim"]:
+        raise AnchorLost("units.py:convert_value parameters (value, su_src, su_dst, sdim)")
+    rets = [re.sub(r"\s+", "", units.seg(n.value)) for n in ast.walk(cv) if isinstance(n, ast.Return) and n.value is not None]
+    if rets != ["value*compute_conversion_factor(su_src,su_dst,sdim)"]:
+        raise AnchorLost("units.py:convert_value return value*compute_conversion_factor(su_src,su_dst,sdim)")
 
     pu = units.func("parse_units")
     # the s.replace(a, b) chain, in order
